@@ -50,6 +50,8 @@ class EigHooks(GslHooks):
             n = it.eval(args[0])
             r = Region('gslv#%d' % len(self.vectors), 1, None, 'heap', {'gslvec': n})
             r.cell(0).value = Obj('gsl_vector')
+            r.cell(0).value.field('size').value = n
+            r.cell(0).value.field('stride').value = 1
             self.vectors.append(r)
             return Ptr(r, 0)
         if name in ('gsl_vector_free', 'gsl_eigen_hermv_free'):
